@@ -431,6 +431,31 @@ func runC06(r *mc.Run) {
 				out = "reject!"
 			}
 			r.Eval(id, len(a.f) > 0, fmt.Sprintf("%s:want=%v/%s", s.name, want, out))
+			// a caller that does not check revocation leaves the two CRL entries of the time set unset: the other
+			// entries are judged exactly as before
+			usesCrlField := false
+			for _, f := range a.f {
+				usesCrlField = usesCrlField || f >= 3
+			}
+			if a.level == world.L1 && !usesCrlField {
+				id2 := id + "crl-times-unset"
+				if r.Want(id2) {
+					now2 := verify.TimeSet{PckCertChain: ts[0], TcbInfo: ts[1], QeIdentity: ts[2]}
+					o2 := &verify.Options{GetCollateral: true, Getter: s.getter.Clone(), Now: &now2, TrustedRoots: s.roots}
+					err2 := verifyRawBoth(r, id2, s.raw, o2)
+					out2 := verdict(err2)
+					switch {
+					case world.IsPanic(err2):
+					case err2 == nil && !want:
+						r.Violate("accepted-out-of-date:crl-times-unset:"+s.name+":"+why, id2, "quote accepted (CRL entries of the time set left unset) although "+why, detail)
+						out2 = "accept!"
+					case err2 != nil && want && s.both:
+						r.Violate("rejected-in-date:crl-times-unset:"+s.name+":"+offFields(a.f), id2, "quote rejected (CRL entries of the time set left unset) although every artifact looked at is in date at its own time: "+errStr(err2), detail)
+						out2 = "reject!"
+					}
+					r.Eval(id2, true, fmt.Sprintf("%s:crl-unset:want=%v/%s", s.name, want, out2))
+				}
+			}
 		})
 		r.SectionDone(mc.Section{Name: "time-assignments/" + s.name, Evaluations: int64(done), Exhaustive: done == len(work),
 			Note: fmt.Sprintf("%d distinct instants; singles at L0-L2, pairs at %v", len(s.instants), pairLevels)})
